@@ -19,19 +19,19 @@ P = {
          "Accept/reject, value, consumed length, remainder identity and error kind of the real decoder are compared with a reference decoder written from the specification on every byte string of length <= 3 (quick) / <= 4 (thorough) for the 16-bit varint decoders, all short strings for bool/u8/i8/options, boundary-structured strings for the wider varints, and valid/prefix/corrupted/re-padded/random inputs for random and concrete shapes.",
          "Trusts the reference decoder (validated against the canonicalization and max-length tables of the specification)."),
  "C04": ("exploration", "4 C04", "guard pages + counting allocator + panic monitor + Miri (+ASan and valgrind memcheck in thorough)",
-         "Hostile inputs (mutated-valid, random, adversarial length prefixes up to usize::MAX) are decoded with the input flush against PROT_NONE pages on either side, under catch_unwind, with a thread-local counting allocator enforcing the allocation bound and pointer-range monitors on every borrowed str/bytes; the same workload is interpreted by Miri (quick) and run under ASan (thorough).",
+         "Hostile inputs (mutated-valid, random, adversarial length prefixes up to usize::MAX) are decoded with the input flush against PROT_NONE pages on either side, under catch_unwind, with a thread-local counting allocator enforcing the allocation bound and pointer-range monitors on every borrowed str/bytes; concrete types also through the checksum-verifying slice decoders; operation histories on one flavour object (IOReader over a guarded scratch buffer, Slice over a guarded input, one Deserializer decoding further values after a refused one) are checked against a model of slot positions; the same workload is interpreted by Miri (quick) and run under ASan and valgrind memcheck (thorough).",
          "Guard pages only see accesses that cross a page edge adjacent to the buffer; Miri covers the rest on a smaller workload. The allocation bound constant is justified in DESIGN 4 C04."),
  "C05": ("fault_enumeration", "4 C05", "capacity fault enumeration with guard pages, canaries, Miri (+ASan and valgrind memcheck in thorough)",
-         "For every sampled value the buffer-full fault is injected at every byte position (every capacity 0..L+2) for slice storage in plain/COBS/CRC framing and at a menu of const capacities for heapless storage; success iff capacity >= L, exact bytes, untouched tail, buffer-full error, canaries and guard pages intact, serialized_size == L.",
+         "For every sampled value the buffer-full fault is injected at every byte position (every capacity 0..L+2) for slice storage in plain/COBS/CRC framing and at a menu of const capacities for heapless storage; success iff capacity >= L, exact bytes, untouched tail, buffer-full error, canaries and guard pages intact, serialized_size == L; operation histories on one Slice flavour (writes after a refused write) under guard page and canary; one-shot and self-stamping values (non-idempotent Serialize impls) through every public entry point.",
          "Heapless capacities are a const-generic menu, not every integer."),
  "C06": ("exploration", "4 C06", "differential monitor against reference COBS; exhaustive short messages",
-         "COBS frames produced by the real crate are compared with a reference Cheshire-Baker encoder (validated against published vectors) for all messages up to length 8/10 over {00,01,02,FF}, run lengths around multiples of 254, random messages, across storage kinds; multi-frame buffers are walked with take_from_bytes_cobs checking remainder pointers.",
+         "COBS frames produced by the real crate are compared with a reference Cheshire-Baker encoder (validated against published vectors) for all messages up to length 8/10 over {00,01,02,FF}, run lengths around multiples of 254, messages handed to the flavour as blocks (strings / byte arrays of every length, pairs and runs of blocks at every alignment with the 254-byte boundary), random messages, across storage kinds; multi-frame buffers are walked with take_from_bytes_cobs checking remainder pointers.",
          "The parenthetical length formula in the statement is exact only for zero-free messages; the check asserts equality with the reference transform and the formula as an upper bound (DESIGN 4 C06)."),
  "C07": ("exploration", "4 C07", "differential monitor against reference COBS decoder + plain decoder; exhaustive short inputs, guard pages",
-         "Every byte string up to length 7/9 over a code-byte-relevant alphabet, valid frames with every single-byte corruption and truncation, and random bytes are decoded by the real COBS entry points and compared with reference COBS decode followed by the plain decoder; remainder offsets, buffer contents after the sentinel, panics and guard pages are monitored.",
+         "Every byte string up to length 7/9 over a code-byte-relevant alphabet, valid frames with every single-byte corruption and truncation, long frames with encoded lengths around every power of two up to 2^17 (quick) / 2^20 (thorough), and random bytes are decoded by the real COBS entry points and compared with reference COBS decode followed by the plain decoder; remainder offsets, buffer contents after the sentinel, panics and guard pages are monitored.",
          "Trusts the reference COBS decoder (validated against published vectors)."),
  "C08": ("exploration", "4 C08", "online history monitor with state hook; exhaustive chunkings of short streams",
-         "Every feed call is recorded at the API boundary and checked online against a sequential model (pending bytes) using the verif_buffered hook; all 2^(len-1) chunkings of short streams, all single transitions of longer ones, random chunkings beyond.",
+         "Every feed call is recorded at the API boundary and checked online against a sequential model (pending bytes) using the verif_buffered hook; all 2^(len-1) chunkings of short streams (each also with empty feed calls before, between and after the chunks), all single transitions of longer ones, random chunkings beyond.",
          "Needs the read-only hook to observe buffered bytes."),
  "C09": ("exploration", "4 C09", "online history monitor with state hook over overflow/garbage streams",
          "Streams with over-long segments and garbage across capacities N in 1..16 incl. N equal to, one less and one more than a frame; monitors: no panic, hook length <= N and empty after every zero, OverFull before the sentinel of an over-long segment, resync, bounded progress of the feed loop in logical steps.",
@@ -40,16 +40,16 @@ P = {
          "Frames for five widths and ten catalogue algorithms are compared with a bit-at-a-time Rocksoft-model CRC (validated against each algorithm's published check value); every single-bit flip, every burst <= width at every offset (exhaustive for widths <= 16, sampled above), truncations and random damage are injected and the soundness invariant is checked on every accepted input.",
          "Trusts the reference CRC (validated against published check values on every run)."),
  "C11": ("fault_enumeration", "4 C11", "I/O fault and schedule enumeration with guard pages, Miri (+ASan, valgrind memcheck, embedded-io 0.4 build in thorough)",
-         "Instrumented readers/writers deliver data in 1-byte/random/whole pieces and fail, hit EOF or interrupt at every byte offset; scratch sizes 0..required+1; monitors: equivalence with slice path, exact consumption, disjoint in-order borrows inside scratch, returned remainder, prefix-only writes, flush.",
+         "Instrumented readers/writers deliver data in 1-byte/random/whole pieces and fail, hit EOF or interrupt at every byte offset; scratch sizes 0..required+1; monitors: equivalence with slice path, exact consumption, disjoint in-order borrows inside scratch, returned remainder, prefix-only writes, flush; writers that refuse exactly one write (one-shot error at every offset, all-or-nothing bounded sink of every capacity) under ordinary values and text formatted piecewise through collect_str.",
          "embedded-io 0.4 is exercised only in the thorough tier (features are mutually exclusive, second build)."),
  "C12": ("exploration", "4 C12", "bound monitor over built-in and in-tree-derive MaxSize impls",
-         "serialized size of maximising and random values of every MaxSize impl is compared with POSTCARD_MAX_SIZE; tightness asserted for the categories the statement names.",
+         "serialized size of maximising and random values of every MaxSize impl is compared with POSTCARD_MAX_SIZE; tightness asserted for the categories the statement names; heapless vectors of zero-sized elements at capacities up to usize::MAX; derived types whose fields carry serde attributes.",
          "Uses the in-tree postcard-derive (path dependency), not the registry one postcard re-exports."),
  "C13": ("exploration", "4 C13", "differential monitor against to_le_bytes/to_be_bytes; exhaustive 16-bit",
          "All 65536 values of u16/i16 in both byte orders, every single-byte-nonzero pattern, extremes and random values of the wider types (all 2^32 of u32/i32 in thorough), standalone and between varint fields.",
          "-"),
- "C14": ("exploration", "4 C14", "conformance monitor: recorded serializer call tree vs Schema, plus schema-driven wire walker",
-         "The serde call tree of generated values of every built-in Schema impl and a derived corpus is checked structurally against T::SCHEMA, and an independent schema-directed reader must consume each encoding exactly.",
+ "C14": ("exploration", "4 C14", "conformance monitor: recorded serializer call tree vs Schema, plus schema-driven wire walker; two feature configurations (use-std, alloc-only)",
+         "The serde call tree of generated values of every built-in Schema impl and a derived corpus is checked structurally against T::SCHEMA, and an independent schema-directed reader must consume each encoding exactly. Two build configurations: the full one (use-std and all integration features) and an alloc-only build of postcard-schema (stage alloc, crate pcv_alloc), which compiles impls/builtins_alloc.rs instead of builtins_std.rs.",
          "Type names are not compared (statement lists field and variant names)."),
  "C15": ("exploration", "4 C15", "differential monitor borrowed vs owned schema over random trees",
          "Random schema trees over all 26 node kinds and 4 data kinds are built in both forms from one harness description; conversion equality, byte equality and decode-back equality are monitored.",
